@@ -65,7 +65,7 @@ class _ToolsProxy:
 
 T = _ToolsProxy()
 Script = _RealT.Script
-SEEDS = [bytes([i]) * 32 for i in range(1, 9)]
+SEEDS = [bytes([i]) * 32 for i in range(1, 13)]
 PUBS = [bytes(SigningKey(s).verify_key) for s in SEEDS]
 
 
@@ -169,6 +169,19 @@ def c13(rng):
     out.append(('graftap:keyspend-other-key', [bs(T.make_graftap_witness_keyspend(SEEDS[b], sf, flh)), bs(lock)], sf, cfg, False))
     out.append(('graftap:scriptspend', [bs(T.make_graftap_witness_scriptspend(SEEDS[a], sur)), bs(lock)], sf, cfg, True))
     out.append(('graftap:scriptspend-other-key', [bs(T.make_graftap_witness_scriptspend(SEEDS[b], sur)), bs(lock)], sf, cfg, False))
+    # cross-pairings of witnesses and locks across builders and keys: what each pair must give follows from the exact lock theorems
+    # (e.g. a single-sig witness opens the key path of a graftroot lock of the same key), so the model decides
+    locks = [('single_sig', T.make_single_sig_lock(PUBS[a], alh)), ('single_sig2', T.make_single_sig_lock2(PUBS[a], alh)),
+             ('multisig 1-of-[A,B]', T.make_multisig_lock([PUBS[a], PUBS[b]], 1, alh)), ('scripthash', T.make_scripthash_lock(script)),
+             ('graftroot', T.make_graftroot_lock(PUBS[a], alh)), ('graftap', T.make_graftap_lock(PUBS[a], alh))]
+    for who, sd in (('A', SEEDS[a]), ('B', SEEDS[b])):
+        wits = [('single_sig', T.make_single_sig_witness(sd, sf, flh)), ('single_sig2', T.make_single_sig_witness2(sd, sf, flh)),
+                ('scripthash', T.make_scripthash_witness(script)), ('graftroot-keyspend', T.make_graftroot_witness_keyspend(sd, sf, flh)),
+                ('graftroot-surrogate', T.make_graftroot_witness_surrogate(sd, sur)), ('graftap-keyspend', T.make_graftap_witness_keyspend(sd, sf, flh)),
+                ('graftap-scriptspend', T.make_graftap_witness_scriptspend(sd, sur))]
+        for wn, w in rng.sample(wits, 3):
+            for ln, lk in rng.sample(locks, 3):
+                out.append(('cross: %s witness by %s against the %s lock of A' % (wn, who, ln), [bs(w), bs(lk)], sf, cfg, None))
     return out
 
 
@@ -254,7 +267,7 @@ def c15(rng):
     sf = fields(rng)
     fl = rng.choice([0, 0, 1 << (int(rng.choice(list(sf))[-1]) - 1), 0x80, 0x03])
     flh = '%02x' % fl
-    pre = bytes(rng.getrandbits(8) for _ in range(rng.randint(1, 40)))
+    pre = bytes(rng.getrandbits(8) for _ in range(rng.choice([1, 1, 2, 16, 20, 31, 32, 33, 63, 64, rng.randint(1, 64)])))
     # the refund path is taken with a one-byte non-preimage (the builders' documented convention); it must differ from
     # the real preimage, or the claim branch is the one that runs (a false alarm of this harness in the thorough tier)
     dummy = b'\x00' if pre != b'\x00' else b'\x01'
@@ -292,6 +305,20 @@ def c15(rng):
         t2 = F.clamp_scalar(bytes(rng.getrandbits(8) for _ in range(32)))
         out.append(('ptlc:claim-wrong-tweak', [bs(T.make_ptlc_witness(SEEDS[rcv], sf, tweak_scalar=t2, sigflags=flh)), bs(lock)], cache, cfg, False))
     out.append(('ptlc:refund-other-key', [bs(T.make_ptlc_refund_witness(SEEDS[other], sf, flh)), bs(lock)], cache, cfg, False))
+    # cross-pairings of the witness kinds with the lock kinds (what each pair must give follows from the exact lock theorems:
+    # the model decides, no separate expectation), before and at the deadline, by the receiver and by the refund key
+    locks = [(lf.__name__[5:-5], lf(PUBS[rcv], PUBS[ref], preimage=pre, timeout=timeout, sigflags=flh, **kw2)) for lf, _, kw2 in builders]
+    locks.append(('ptlc', T.make_ptlc_lock(PUBS[rcv], PUBS[ref], timeout=timeout, sigflags=flh)))
+    locks.append(('ptlc-tweaked', lock if tw else T.make_ptlc_lock(PUBS[rcv], PUBS[ref], tweak_point=F.derive_point_from_scalar(F.clamp_scalar(b'\x07' * 32)), timeout=timeout, sigflags=flh)))
+    for who, sd in (('receiver', SEEDS[rcv]), ('refund-key', SEEDS[ref])):
+        wits = [('htlc-witness', T.make_htlc_witness(sd, pre, sf, flh)), ('htlc-witness(dummy)', T.make_htlc_witness(sd, dummy, sf, flh)),
+                ('htlc2-witness', T.make_htlc2_witness(sd, pre, sf, flh)), ('htlc2-witness(dummy)', T.make_htlc2_witness(sd, dummy, sf, flh)),
+                ('ptlc-witness', T.make_ptlc_witness(sd, sf, sigflags=flh)), ('ptlc-refund-witness', T.make_ptlc_refund_witness(sd, sf, flh))]
+        wn, w = rng.choice(wits)
+        for ln, lk in locks:
+            dt = rng.choice([0, timeout])
+            out.append(('cross: %s by %s against %s lock at t=now%+d (deadline now%+d)' % (wn, who, ln, dt, timeout), [bs(w), bs(lk)],
+                        dict(sf, timestamp=now + dt), cfg, None))
     return out
 
 
@@ -481,6 +508,26 @@ def c04(rng):
     j = rng.randrange(len(u))
     u2 = bytearray(u); u2[j] ^= 1 << rng.randrange(8)
     out.append(('%s corrupted-unlock-byte@%d' % (kind, j), [bytes(u2), bs(lock)], {}, cfg, None, None, 'maybe'))
+    # level order: two sibling hashes of a proof exchanged (the deepest proof of the tree)
+    def _items(b):
+        res, k = [], 0
+        while k < len(b):
+            if b[k] == 3 and k + 2 <= len(b): ln, h = b[k + 1], 2
+            elif b[k] == 4 and k + 3 <= len(b): ln, h = int.from_bytes(b[k + 1:k + 3], 'big'), 3
+            elif b[k] == 2: ln, h = 1, 1
+            else: return None
+            res.append((k, k + h + ln, ln)); k += h + ln
+        return res if k == len(b) else None
+    deep = max((bs(x) for x in unlocks), key=len)
+    its = _items(deep)
+    if its:
+        hs = [x for x in its if x[2] == 32]
+        if len(hs) >= 2:
+            (a0, a1, _), (b0, b1, _) = rng.sample(hs, 2)
+            if a0 > b0: (a0, a1), (b0, b1) = (b0, b1), (a0, a1)
+            if deep[a0:a1] != deep[b0:b1]:
+                sw = deep[:a0] + deep[b0:b1] + deep[a1:b0] + deep[a0:a1] + deep[b1:]
+                out.append(('%s proof with two sibling hashes exchanged (level order)' % kind, [sw, bs(lock)], {}, cfg, False, None, ''))
     foreign = Script.from_src(leaf_src(99 % 256, 'true'))
     sib = hashlib.sha256(b'x').digest()
     out.append(('%s foreign-leaf' % kind, [bs(Script.from_src('push x%s push x%s' % (sib.hex(), foreign.bytes.hex()))), bs(lock)], {}, cfg, False, None, ''))
@@ -530,6 +577,38 @@ def c05(rng):
             root = ed_add(P, nb.crypto_scalarmult_ed25519_base_noclamp(t))
             ok = bs(lock) == bytes([3, 32]) + root + bytes([F.opcodes_inverse['OP_TAPROOT'][0], fl])
             out.append(('taproot root formula', None, None, None, ok))
+        if nm not in _C05_BITS:
+            # "all corruptions of script, key, signature and root": once per worker process every single bit of the signature
+            # (key path), of the committed script and of the internal key (script path) and of the root inside the lock is flipped
+            _C05_BITS.add(nm)
+            Sok = Script.from_src('push d1 push d1 equal')
+            lk0 = bs(lock_f(P, Sok, sigflags='00'))
+            t0 = F.clamp_scalar(hashlib.sha256(P + hashlib.sha256(Sok.bytes).digest()).digest())
+            root0 = ed_add(P, nb.crypto_scalarmult_ed25519_base_noclamp(t0))
+            wk0 = bs(T.make_taproot_witness_keyspend(SEEDS[a], sf, Sok, sigflags='00'))
+            ws0 = bs(T.make_taproot_witness_scriptspend(P, Sok))
+            run = lambda w_, l_: F.run_auth_scripts([w_, l_], dict(sf))
+            sweep = [('honest key path', None, run(wk0, lk0) is True), ('honest script path', None, run(ws0, lk0) is True)]
+            def flips(what, whole, at, ln, use):
+                acc = []
+                for bit in range(ln * 8):
+                    w_ = bytearray(whole); w_[at + bit // 8] ^= 1 << (bit % 8)
+                    if use(bytes(w_)):
+                        acc.append(bit)
+                sweep.append(('every single-bit corruption of the %s is refused (%d bits)' % (what, ln * 8), acc, not acc))
+            if wk0[:2] == bytes([3, 64]):
+                flips('signature (key path)', wk0, 2, 64, lambda w_: run(w_, lk0))
+            if ws0.find(P) >= 0:
+                flips('internal key (script path)', ws0, ws0.find(P), 32, lambda w_: run(w_, lk0))
+            k_ = ws0.find(bytes([len(Sok.bytes)]) + Sok.bytes)
+            if k_ >= 0:
+                flips('committed script (script path)', ws0, k_ + 1, len(Sok.bytes), lambda w_: run(w_, lk0))
+            if lk0.count(root0) == 1:
+                flips('root in the lock, script path', lk0, lk0.find(root0), 32, lambda l_: run(ws0, l_))
+                flips('root in the lock, key path', lk0, lk0.find(root0), 32, lambda l_: run(wk0, l_))
+            for what, acc, ok_ in sweep:
+                out.append(('%s bit sweep: %s%s' % (nm, what, (' -- ACCEPTED with bit(s) %s flipped; witness(key path)=%s witness(script path)=%s lock=%s cache=%s'
+                            % (acc[:8], wk0.hex(), ws0.hex(), lk0.hex(), tsh.cache_str(sf, False))) if acc else ''), None, None, None, ok_))
         wk = T.make_taproot_witness_keyspend(SEEDS[a], sf, S, sigflags=flh)
         out.append((nm + ':keyspend', [bs(wk), bs(lock)], sf, cfg, True, None, ''))
         out.append((nm + ':keyspend-other-key', [bs(T.make_taproot_witness_keyspend(SEEDS[b], sf, S, sigflags=flh)), bs(lock)], sf, cfg, False, None, ''))
@@ -586,6 +665,7 @@ def c05(rng):
 # ---------------------------------------------------------------- C17: adapter signatures
 L_ORDER = 2**252 + 27742317777372353535851937790883648493
 _C17_SWEPT = False
+_C05_BITS = set()
 
 
 def c17(rng):
@@ -594,10 +674,35 @@ def c17(rng):
     a, b = rng.sample(range(len(SEEDS)), 2)
     seed, X = SEEDS[a], PUBS[a]
     sf = fields(rng)
-    tw = bytes(rng.getrandbits(8) for _ in range(32))
+    # tweak scalars: random 32-byte strings (unclamped), already clamped ones, and the edge scalars 0, 1, L-1
+    tw = rng.choice([bytes(rng.getrandbits(8) for _ in range(32))] * 4 + [F.clamp_scalar(bytes(rng.getrandbits(8) for _ in range(32))),
+                    (0).to_bytes(32, 'little'), (1).to_bytes(32, 'little'), (L_ORDER - 1).to_bytes(32, 'little')])
     t = F.clamp_scalar(tw)
+    if int.from_bytes(t, 'little') % L_ORDER == 0:
+        # t = 0 (mod L): T = t*G is the identity, which the library does not accept as a point anywhere — no adapter exists for it;
+        # what must hold is that it is refused consistently (derive, make, check, decrypt), never half-accepted
+        ident = (1).to_bytes(32, 'little')
+        def raises(script):
+            try:
+                F.run_script(script); return False
+            except BaseException:
+                return True
+        try:
+            F.derive_point_from_scalar(t); d = False
+        except BaseException:
+            d = True
+        out.append(('adapter-op: tweak scalar 0 has no tweak point (derive_point_from_scalar refuses)', None, None, None, d))
+        out.append(('adapter-op: the identity is refused as tweak point by MAKE_ADAPTER_SIG_PUBLIC', None, None, None,
+                    raises(gpush(seed) + gpush(b'm') + gpush(ident) + bytes([F.opcodes_inverse['OP_MAKE_ADAPTER_SIG_PUBLIC'][0]]))))
+        out.append(('adapter-op: the identity is refused as tweak point by CHECK_ADAPTER_SIG', None, None, None,
+                    raises(gpush(bytes(32)) + gpush(X) + gpush(b'm') + gpush(ident) + gpush(X) + bytes([F.opcodes_inverse['OP_CHECK_ADAPTER_SIG'][0]]))))
+        out.append(('adapter-op: tweak scalar 0 is refused by DECRYPT_ADAPTER_SIG', None, None, None,
+                    raises(gpush(bytes(32)) + gpush(X) + gpush(tw) + bytes([F.opcodes_inverse['OP_DECRYPT_ADAPTER_SIG'][0]]))))
+        return out
     Tp = F.derive_point_from_scalar(t)
-    m = b''.join(sf[k] for k in sorted(sf))
+    # messages of 0..512 bytes at instruction level (the builders below sign the sigfields)
+    m = bytes(rng.getrandbits(8) for _ in range(rng.choice([0, 1, 31, 32, 64, 255, 256, 511, 512, rng.randint(0, 512)]))) \
+        if rng.random() < 0.5 else b''.join(sf[k] for k in sorted(sf))
     # instruction level through run_script (direct facts computed with PyNaCl)
     _, st, _ = F.run_script(gpush(seed) + gpush(m) + gpush(Tp) + bytes([F.opcodes_inverse['OP_MAKE_ADAPTER_SIG_PUBLIC'][0]]))
     sa, R = st.get(), st.get()
@@ -675,7 +780,8 @@ def c17(rng):
         out.append((nm + 'wrong tweak then check_sig', [bs(w), bs(T.make_adapter_decrypt(bytes(rng.getrandbits(8) for _ in range(32)))), bytes([F.opcodes_inverse['OP_CONCAT'][0]]), bs(l3)], sf, cfg, False))
         dec = T.decrypt_adapter(w, tw)
         if fl == 0:
-            out.append(('decrypt_adapter == RT||s', None, None, None, dec == RT + s if sf else True))
+            if m == b''.join(sf[k] for k in sorted(sf)):
+                out.append(('decrypt_adapter == RT||s', None, None, None, dec == RT + s if sf else True))
         out.append((nm + 'decrypted sig (+flag byte) unlocks', [gpush(dec + (bytes([fl]) if fl else b'')), bs(l3)], sf, cfg, True))
     # an adapter instruction must not use what an earlier adapter instruction of the same run left in the cache:
     # first another adapter is made for a different tweak point (the default flags cache r, R, T, sa), then the honest
@@ -735,7 +841,7 @@ def c18(rng):
         return c18_empty_seed(rng)
     out = []
     cfg = tsh.Cfg()
-    n = rng.randint(2, 6)
+    n = rng.choice([2, 3, 3, 4, 4, 5, 6, 7, 8])
     ids = rng.sample(range(len(SEEDS)), n)
     pubs = [PUBS[i] for i in ids]
     prvs = [SEEDS[i] for i in ids]
@@ -804,11 +910,16 @@ def c18(rng):
         else:
             out.append(('amhl(%s): hop %d refund branch before the timeout' % (mode, i),
                         [gpush(sig) + bytes([F.opcodes_inverse['OP_FALSE'][0]]), bs(am[pubs[i]][1])], sfs[i], cfg, False))
-        # scalar of another hop does not
-        j = rng.choice([x for x in range(n) if x != i])
-        other = _AM.AMHL.scalar_sum(*ys[:j + 1])
-        bad = T.decrypt_adapter(wits[i].bytes, other)
-        out.append(('amhl: hop %d with scalar of hop %d' % (i, j), [gpush(bad) + tail, bs(am[pubs[i]][1])], sfs[i], cfg, False))
+        # the scalar of any other hop does not (every other hop: whatever order the hops are tried in, only the scalar
+        # released by the right-hand neighbour opens hop i), nor does the scalar of the same hop of another chain
+        for j in range(n):
+            if j != i:
+                other = _AM.AMHL.scalar_sum(*ys[:j + 1])
+                bad = T.decrypt_adapter(wits[i].bytes, other)
+                out.append(('amhl: hop %d with scalar of hop %d' % (i, j), [gpush(bad) + tail, bs(am[pubs[i]][1])], sfs[i], cfg, False))
+        ys2 = _AM.AMHL.setup(n, seed + b'another chain')[0]
+        bad = T.decrypt_adapter(wits[i].bytes, _AM.AMHL.scalar_sum(*ys2[:i + 1]))
+        out.append(('amhl: hop %d with the scalar of hop %d of another chain' % (i, i), [gpush(bad) + tail, bs(am[pubs[i]][1])], sfs[i], cfg, False))
     return out
 
 
